@@ -14,11 +14,13 @@ from checks import g6fmt, c22
 
 CLAIM = {
     "level": "other",
-    "text": "Coq theorem for the expression kernel (binary/unary/star/paren/call/index/selector/error-wrap over the regenerated "
-            "precedence table): a tree with the parentheses the parser would have recorded is printed and re-read as exactly itself; the "
-            "kernel is tied to printer and parser by a differential run on parser-shaped trees.  Statements, declarations, class files, "
-            "layout and comments are explored: parse(format(src)) is compared structurally with parse(src) on the whole corpus, on a "
-            "comment inserted before every token of the small files (deterministic) and on seeded generated sources.",
+    "text": "Coq theorem for the expression kernel (identifier, literal, unary, star, binary over the regenerated precedence table, "
+            "parenthesis, call, index, selector, error wrap, lambda): for EVERY token list the parser model accepts, printing the resulting "
+            "tree and parsing again returns the same tree (up to doubled parentheses '((x))', which the printer prints as '(x)'); it rests on "
+            "the proved invariant that every tree the parser returns needs no further parentheses.  The kernel is tied to printer and "
+            "parser by K-gen tables and a differential run on parser-shaped trees.  Statements, declarations, class files, layout and "
+            "comments are explored: parse(format(src)) is compared structurally with parse(src) on the whole corpus, on a comment inserted "
+            "before every token of the small files (deterministic) and on seeded generated sources.",
     "note": "Kernel theorem + explored remainder.  The structural comparison ignores positions, comments, resolution data, the order of "
             "import specs inside one declaration, doubled parentheses and parentheses around a whole if/for/switch condition.  "
             "Trusted: Coq kernel, extraction, translator, harness.",
@@ -26,7 +28,7 @@ CLAIM = {
 
 
 def run(ctx):
-    ctx.regen(["tokens"])
+    ctx.regen(["tokens", "printerexpr"])
     ctx.prove("C19")
     model = ctx.model("expr")
     impl = ctx.harness("c22")
@@ -40,7 +42,7 @@ def run(ctx):
     if rc != 0 or len(ml) != len(cases):
         ctx.broken("correspondence(c19:model)", "rc=%d lines=%d cases=%d" % (rc, len(ml), len(cases)))
         return
-    shaped = sorted(set(f[1] for f in (l.split("\t") for l in ml) if len(f) == 4 and "v" in f[3] and "p" in f[3] and "l" in f[3]))
+    shaped = sorted(set(f[1] for f in (l.split("\t") for l in ml) if len(f) == 4 and "v" in f[3] and "p" in f[3]))
     pin = "".join("P\tE\t%s\n" % s for s in shaped)
     rc1, o1 = ctx.run([impl], input=pin)
     rc2, o2 = ctx.run([model], input=pin)
@@ -53,12 +55,12 @@ def run(ctx):
         fa, fb = a.split("\t"), b.split("\t")
         ti.append(fa[0]); tm.append(fb[0])
         pi.append("ERR" if fa[1] == "parse-error" else fa[2]); pm.append(fb[2])
-        fl.append("vpla" if all(x in fb[3] for x in "vpla") else fb[3])
+        fl.append("vpa" if all(x in fb[3] for x in "vpa") else fb[3])
         if fa[1] == "parse-error" or fa[2] != s:
             ctx.fail("tree:" + s.replace(" ", "_"), "parser-shaped tree %s prints %s and re-parses as %s" % (s, fa[3], fa[2]), {"tree": s, "impl": a})
     ctx.diff_lines("pr~printer.Fprint+scanner (parser-shaped trees)", shaped, "\n".join(ti), "\n".join(tm))
     ctx.diff_lines("parse(pr e)~parser.ParseExpr(Fprint e) (parser-shaped trees)", shaped, "\n".join(pi), "\n".join(pm))
-    ctx.diff_lines("norm e is parser-shaped (noaddb, posokb, validb)", shaped, "\n".join(["vpla"] * len(shaped)), "\n".join(fl))
+    ctx.diff_lines("norm e is parser-shaped (noaddb, posokb, validb)", shaped, "\n".join(["vpa"] * len(shaped)), "\n".join(fl))
     ctx.cover(evaluations=len(cases) + len(shaped), distinct_nontrivial=len(shaped),
               rule="expression kernel: %d parser-shaped trees (norm e of the %d enumerated model trees) compared token by token and tree by tree" % (len(shaped), len(cases)),
               parser_shaped_trees=len(shaped))
